@@ -118,6 +118,10 @@ class Std:
         self.full_cols = True
         self.form = "m"
         self.A = None                     # per-frequency a matrices
+        # a partly specified standard: only the first s_rows rows / s_cols
+        # columns of its S matrix are handed to the library (None = all)
+        self.s_rows = None
+        self.s_cols = None
 
     def S_std(self, f):
         return [[self.sp[a][b].values[f] for b in range(self.n)]
@@ -137,7 +141,16 @@ class Std:
             for q2 in range(p):
                 if q not in conn and q2 not in conn:
                     S[q, q2] = np.nan
+        # cells of the standard itself that were not given
+        for a in range(self.n):
+            for b in range(self.n):
+                if (self.s_rows is not None and a >= self.s_rows) or \
+                        (self.s_cols is not None and b >= self.s_cols):
+                    S[self.ports[a] - 1, self.ports[b] - 1] = np.nan
         return S
+
+    def partial(self):
+        return self.s_rows is not None or self.s_cols is not None
 
     def is_diag(self):
         return all(self.sp[a][b].is_zero() for a in range(self.n)
@@ -401,6 +414,22 @@ class Scenario:
     # ------------------------------------------------------------------
     # how each standard is entered
     # ------------------------------------------------------------------
+    def make_partial(self, std):
+        """hand the library only part of the standard's S matrix: whole
+        columns for the T types, whole rows for the U types (what each can
+        use); the measurement stays complete.  Call after choose_entries."""
+        if std.n < 2 or self.r != self.c:
+            return False
+        keep = int(self.rng.integers(1, std.n))
+        if self.ctype in physics.T_TYPES:
+            std.s_cols = keep
+        else:
+            std.s_rows = keep
+        std.entry = "mapped_matrix"
+        std.full_rows = std.full_cols = True
+        std.use_null_map = False
+        return True
+
     def choose_entries(self, form=None):
         rng = self.rng
         for s in self.stds:
@@ -599,6 +628,16 @@ class Scenario:
             s.cmat("m%d" % idx, mcells)
             marg = "@m%d %d %d" % (idx, nr, nc)
             suffix = "_m"
+        if std.partial():
+            sr = std.n if std.s_rows is None else std.s_rows
+            scn = std.n if std.s_cols is None else std.s_cols
+            hv = [[self.emit_param(s, std.sp[a][b], vc, uid)
+                   for b in range(scn)] for a in range(sr)]
+            s.ivec("s%d" % idx, [hv[a][b] for a in range(sr)
+                                 for b in range(scn)])
+            s.ivec("map%d" % idx, std.ports)
+            return s.op("vnacal_new_add_mapped_matrix%s $%s %s @s%d %d %d "
+                        "@map%d" % (suffix, vn, marg, idx, sr, scn, idx))
         hv = [[self.emit_param(s, std.sp[a][b], vc, uid) for b in range(std.n)]
               for a in range(std.n)]
         e = std.entry
